@@ -1,1 +1,7 @@
-import PlinioVerif.Props.T0
+import PlinioVerif.Model.Proto
+import PlinioVerif.Props.C01
+import PlinioVerif.Props.C04
+import PlinioVerif.Props.C07
+import PlinioVerif.Props.C08
+import PlinioVerif.Props.C09
+import PlinioVerif.Props.C15
